@@ -110,6 +110,9 @@ def gfortran_check(files: dict, fixed=False, std="gnu", extra_stub: str | None =
             (d / "zz_stub.f90").write_text(extra_stub)
             names.append("zz_stub.f90")
         for i, (rel, text) in enumerate(files.items()):
+            if rel.endswith(".inc"):
+                (d / Path(rel).name).write_text(text)       # an include file: found by name, not compiled
+                continue
             ext = Path(rel).suffix or ".f90"
             n = f"f{i}{ext}"
             (d / n).write_text(text)
